@@ -331,12 +331,11 @@ theorem FormalPart.fix_shape {i : Int} {v : Option Str} {l r : List Tok}
       obtain ⟨rfl, _⟩ := pyIdx_ofNat _ _ _ hk'
       exact ⟨e, t, rfl, hkt, hr⟩
 
-/-- B-FULL, formal part: every action the analysis of a region produces makes a case-only fix —
-    PARTIAL: `case_exceptions` must not contain the same word twice in different case (otherwise
-    the recorded index is a position in that list: see the witness in C03.lean) -/
-theorem FormalPart.analyze_fix_caseOnly_partial (T : CharWise E fold lc uc fc) (c : FormalPart.Classes)
+/-- B-FULL, formal part: every action the analysis of a region produces makes a case-only fix, for
+    every `case_exceptions` list (since the repo repair of `check_for_exception` the recorded index is
+    the token's; before it the list must not contain the same word twice in different case) -/
+theorem FormalPart.analyze_fix_caseOnly (T : CharWise E fold lc uc fc) (c : FormalPart.Classes)
     (p : Params) (l r : List Tok) (acts : List Action) (a : Action)
-    (hnd : NoCaseDup E p.exceptions)
     (hok : ∀ t ∈ l, t.cls = c.formal → TokOk p t)
     (ha : FormalPart.analyzeToi E c p l = .ok acts) (hm : a ∈ acts)
     (hf : FormalPart.fixV a.index (.ok a.value) l = .ok r) : CaseOnly fold l r := by
@@ -344,7 +343,7 @@ theorem FormalPart.analyze_fix_caseOnly_partial (T : CharWise E fold lc uc fc) (
   rcases FormalPart.scan_spec c p _ _ l 0 false false [] acts [] rfl ha a hm with h | ⟨j, t, hj, hcls, hchk⟩
   · cases h
   · simp only [List.nil_append] at hj
-    have hidx := check_index T hnd hchk
+    have hidx := check_index T hchk
     obtain ⟨e, t', he, ht', rfl⟩ := FormalPart.fix_shape hf j hidx
     rw [hj] at ht'; cases ht'
     have htok := hok t (List.mem_of_getElem? hj) hcls
